@@ -31,7 +31,7 @@ Proof. exact known_column_any_spelling. Qed.
 Print Assumptions C13_known_column_any_spelling.
 Theorem C13_alias_any_spelling : forall aliases columns dc h d0 d,
   (mem h columns = true -> to_snake_case h = h) ->
-  contains [58%N] h = false -> alias_get (to_snake_case h) aliases = Some (d0 :: d) -> seqb s_jr (py_strip h) = false ->
+  contains [58%N] h = false -> alias_get (to_snake_case h) aliases = Some (d0 :: d) ->
   process_header aliases columns dc h = Some (d0 :: d).
 Proof. exact alias_any_spelling. Qed.
 Print Assumptions C13_alias_any_spelling.
